@@ -335,7 +335,8 @@ def main(prop, judge, make, sizes, describe, argv=None):
     n_corner_all = (len(GEN.cornerstone_list(args.tier)) if prop == "C06" else n_corner) if n_corner else 0
     if prop == "C06" and n_corner:
         # the parameter-sweep sessions (one per family) are part of every tier
-        _CTX["priority_cornerstones"] = [k for k, e in enumerate(GEN.cornerstone_list(args.tier)) if e[3] == "sweep"]
+        # ... and so are the two_times sessions (every parameter set: one object at two times, near-equal times, a big request)
+        _CTX["priority_cornerstones"] = [k for k, e in enumerate(GEN.cornerstone_list(args.tier)) if e[3] in ("sweep", "two_times")]
     if args.runs is not None:
         n_swarm = args.runs
     if args.corner is not None:
